@@ -245,6 +245,28 @@ def alpha_s_self_cases():
         except Exception as exc:
             ok, detail = False, f"{type(exc).__name__}: {exc}"[:160]
         yield {'name': f"alpha_s_against_itself|branch={b},branch_ref={br}", 'ok': bool(ok), 'detail': detail}
+    # the reference area given as a number (float, int)
+    for tag, area in (('float', 120.0), ('int', 120)):
+        try:
+            res = pgc.alpha_s(iso, iso, reference_area=area, t_limits=(0.3, 2.0))['results']
+            ok = len(res) == 1 and numpy.isclose(res[0]['area'], 120.0, rtol=1e-6)
+            detail = '' if ok else f"area {[float(r['area']) for r in res]}, reference area given: 120"
+        except Exception as exc:
+            ok, detail = False, f"{type(exc).__name__}: {exc}"[:160]
+        yield {'name': f"alpha_s_against_itself|reference_area_given_as_{tag}", 'ok': bool(ok), 'detail': detail}
+    # the same reference data kept in absolute pressure (bar, kPa): the result is the one of the relative-pressure reference
+    for unit in ('bar', 'kPa'):
+        try:
+            ref = pygaps.PointIsotherm(pressure=list(up), loading=[f(x) for x in up], material='pgv_c14', adsorbate='nitrogen', temperature=77.355,
+                                       pressure_mode='relative', pressure_unit=None, loading_basis='molar', loading_unit='mmol', material_basis='mass', material_unit='g',
+                                       temperature_unit='K')
+            ref.convert_pressure(mode_to='absolute', unit_to=unit)
+            res = pgc.alpha_s(iso, ref, reference_area=120.0, t_limits=(0.3, 2.0))['results']
+            ok = len(res) == 1 and numpy.isclose(res[0]['area'], 120.0, rtol=1e-6) and numpy.isclose(res[0]['slope'], f(0.4), rtol=1e-4)
+            detail = '' if ok else f"area {[float(r['area']) for r in res]} (reference area 120), slope {[float(r['slope']) for r in res]} (reference loading at 0.4: {f(0.4):.3f})"
+        except Exception as exc:
+            ok, detail = False, f"{type(exc).__name__}: {exc}"[:160]
+        yield {'name': f"alpha_s_against_itself|reference_stored_in_absolute_{unit}", 'ok': bool(ok), 'detail': detail}
 
 
 def verbose_entry_cases():
@@ -368,3 +390,55 @@ def _branch(spec, model):
     got = numpy.asarray(res['alpha_curve'], dtype=float)
     ok = got.shape == want.shape and numpy.allclose(got, want, rtol=1e-9)
     return {'confirmed': not ok, 'observed': {'alpha_curve': [float(v) for v in got[:4]]}, 'expected': {'alpha_curve': [float(v) for v in want[:4]]}}
+
+
+def standard_thickness_cases():
+    """t-plot with the two thickness curves that are tabulated standard isotherms: an isotherm generated as slope * t(p) + intercept,
+    t(p) computed here from the table (linear between its points, held at the last tabulated value above it, zero below it: what
+    models_thickness.load_std_isotherm states), on a grid that runs to p/p0 = 0.995 as measured isotherms do, returns the
+    generating slope, intercept, area and pore volume and its thickness curve is the tabulated one"""
+    import pygaps
+    from pygaps.characterisation.models_thickness import get_thickness_model
+    from pygaps.characterisation.t_plots import t_plot_raw
+    from pygaps.data import STANDARD_ISOTHERMS
+    from pygaps.parsing.csv import isotherm_from_csv
+    pygaps.logger.disabled = True
+    slope, intercept, mm, rho = 3.0, 1.5, 28.0134, 0.8076
+    for name, key in (("carbon black Kruk/Jaroniec/Gadkaree", "CB_KJG"), ("SiO2 Jaroniec/Kruk/Olivier", "SiO2_JKO")):
+        tab = isotherm_from_csv(STANDARD_ISOTHERMS[key])
+        p_tab = numpy.asarray(tab.pressure(), dtype=float)
+        t_tab = numpy.asarray(tab.loading(), dtype=float) / tab.properties["monolayer uptake [mmol/g]"] * 0.354
+        order = numpy.argsort(p_tab)
+        p_tab, t_tab = p_tab[order], t_tab[order]
+        for top in (0.9, 0.995):
+            probs = []
+            pressure = numpy.linspace(0.05, top, 40)
+            t_ref = numpy.interp(pressure, p_tab, t_tab, left=0.0, right=t_tab[-1])
+            loading = slope * t_ref + intercept
+            inside = int(numpy.sum((t_ref > 0.45) & (t_ref < 10.0)))
+            try:
+                results, t_curve = t_plot_raw(loading, pressure, get_thickness_model(name), rho, mm, (0.45, 10.0))
+                dev = float(numpy.max(numpy.abs(numpy.asarray(t_curve, dtype=float) - t_ref)))
+                if dev > 1e-9:
+                    probs.append(f"thickness curve up to {dev:.3g} nm off the tabulated one (last point {float(t_curve[-1]):.5g}, table {float(t_ref[-1]):.5g})")
+                if len(results) != 1:
+                    probs.append(f"{len(results)} results")
+                else:
+                    r = results[0]
+                    want = {'slope': slope, 'intercept': intercept, 'area': slope * mm / rho, 'adsorbed_volume': intercept * mm / rho / 1000}
+                    for k, w in want.items():
+                        if not abs(float(r[k]) - w) <= 1e-6 * abs(w):
+                            probs.append(f"{k} {float(r[k]):.8g}, generated with {w:.8g}")
+                    if len(r['section']) != inside:
+                        probs.append(f"{len(r['section'])} points fitted, {inside} inside the limits")
+            except Exception as exc:
+                probs.append(f"{type(exc).__name__}: {exc}"[:160])
+            yield {'name': f"t_plot_standard_isotherm_thickness|{key}|grid_to_{top}", 'ok': not probs, 'detail': '; '.join(probs[:3])}
+
+
+@replayer('c14.std_thickness')
+def _std_thickness(spec, model):
+    for r in standard_thickness_cases():
+        if r['name'] == spec['name']:
+            return {'confirmed': not r['ok'], 'observed': r['detail'], 'expected': 'the generating slope, intercept, area and pore volume; the tabulated thickness curve'}
+    return {'confirmed': False, 'error': 'case not found'}
